@@ -2,6 +2,7 @@
 
 Python value  ->  JSON-able tree.  Floats travel as the 16 hex digits of their IEEE-754 bits,
 strings as the hex of their UTF-8 bytes, ints as decimal strings (arbitrary precision)."""
+import array
 import datetime
 import decimal
 import struct
@@ -62,6 +63,9 @@ def to_wire(v):
         return {"dec": [s, list(d), str(e)]}
     if t is uuid.UUID:
         return {"uuid": "%032x" % v.int}
+    if t is array.array:
+        # validators and writers treat an array.array like any other sequence: the model is handed its items
+        return {"l": [to_wire(x) for x in v]}
     return {"o": t.__name__}
 
 
